@@ -608,6 +608,9 @@ func (o *c33Outer) Accept(ctx context.Context, logs ...drivers.LogWithLedger) (e
 	if o.mon.light || p == nil {
 		return o.Driver.Accept(ctx, logs...)
 	}
+	if o.mon.healed.Load() {
+		p.acceptsQ.Add(1)
+	}
 	ids := make([]uint64, len(logs))
 	for i, l := range logs {
 		if l.ID != nil {
